@@ -96,6 +96,9 @@ func buildTSClientReplies(e *engine, p *rt.Package, check string) {
 					r, err := drv.Call(map[string]any{"op": "ts_client_call", "module": clientMod, "service": svc.Name, "method": m.Name, "baseURL": "http://verif.test",
 						"request": fillTSDefaults(tree, info.In), "capture": true, "cannedStatus": status, "cannedBody": body, "cannedContentType": ct})
 					if err != nil {
+						if !strings.Contains(err.Error(), "did not answer") {
+							panic(infraError(err.Error()))
+						}
 						// the driver gives up after 90 s: the call never settled
 						t.Fatalf("the TypeScript client call did not settle (status %d, %s body): %v", status, kind, err)
 					}
